@@ -30,7 +30,7 @@ TOL = 1e-5
 
 
 def budget(tier):
-	return {'quick': 1200, 'thorough': 12000}[tier]
+	return {'quick': 2000, 'thorough': 12000}[tier]
 
 
 def run_case(case, ctx):
